@@ -1,59 +1,42 @@
 (* Lemmas in exactly the shape Props/C09.v and Props/C08.v state them. *)
 From LP Require Import Prelude.Py Prelude.PyLemmas Gen.RelImport Gen.Select
-     Ast.AstLite Ast.AuxStr Ast.Select Ast.SelectGen Ast.Transform Ast.TransformFacts Ast.Behaviour.
+     Ast.AstLite Ast.AuxStr Ast.Select Ast.SelectGen Ast.Transform Ast.TransformFacts
+     Ast.Placement Ast.Behaviour.
 
 (* ---- C09 ------------------------------------------------------------------------------- *)
-Lemma whole_script c body t' :
-  c_full c = true -> transform c body = Ok t' ->
-  funcs t' = map deco_once (funcs (pre c body))
-  /\ erase t' = erase (pre c body)
-  /\ (forall f, In f (funcs t') -> has_profile (fh_decos f) = true).
+Lemma whole_script c body :
+  c_full c = true ->
+  funcs (transform c body) = map deco_once (funcs (pre c body))
+  /\ erase (transform c body) = erase (pre c body)
+  /\ (forall f, In f (funcs (transform c body)) -> has_profile (fh_decos f) = true).
 Proof.
-  intros Hf H. split; [|split].
-  - rewrite (funcs_transform c body t' H), Hf. reflexivity.
-  - apply (erase_transform c body t' H).
-  - apply (whole_script_all_profiled c body t' Hf H).
+  intros Hf. split; [|split].
+  - rewrite funcs_transform, Hf. reflexivity.
+  - apply erase_transform.
+  - apply (whole_script_all_profiled c body Hf).
 Qed.
 
-Lemma whole_script_clean c body t' :
-  c_full c = true -> clean (pre c body) = true -> transform c body = Ok t' ->
-  erase t' = pre c body /\ (forall f, In f (funcs t') -> once_innermost f = true).
+Lemma whole_script_clean c body :
+  c_full c = true -> clean (pre c body) = true ->
+  erase (transform c body) = pre c body
+  /\ (forall f, In f (funcs (transform c body)) -> once_innermost f = true).
 Proof.
-  intros Hf Hc H. split.
-  - apply (erase_transform_clean c body t' H Hc).
-  - apply (whole_script_once_innermost c body t' Hf Hc H).
+  intros Hf Hc. split; [apply (erase_transform_clean c body Hc)|apply (whole_script_once_innermost c body Hf Hc)].
 Qed.
 
-Lemma registered_names c body t' :
-  transform c body = Ok t' -> c_full c = false \/ c_imports c = false ->
-  exists d, select (c_sel c) (pre c body) = Ok d
-            /\ forall y, In y (regs t') <-> In y (map snd d) \/ In y (regs (pre c body)).
+Lemma selection_exact_order S body :
+  (forall p, In p (dict_items (select S body)) <-> In p (wanted S body))
+  /\ (forall k, dict_names (select S body) k = map snd (filter (fun kv => Z.eqb (fst kv) k) (wanted S body)))
+  /\ NoDup (map fst (select S body)).
 Proof.
-  intros H Hcfg. destruct (transform_ok c body t' H) as [d [Hd _]]. exists d. split; [exact Hd|].
-  apply (regs_transform c body t' d H Hd Hcfg).
+  split; [intros p; apply selection_exact|]. split; [intros k; apply selection_order|apply select_keys_nodup].
 Qed.
 
-Lemma nothing_else_registered c body t' :
-  transform c body = Ok t' -> c_full c = false \/ c_imports c = false ->
-  forall y, In y (regs t') ->
-            (exists k, In (k, y) (wanted (c_sel c) (pre c body))) \/ In y (regs (pre c body)).
-Proof.
-  intros H Hcfg y Hy. destruct (registered_names c body t' H Hcfg) as [d [Hd Hiff]].
-  destruct (proj1 (Hiff y) Hy) as [Hm|Hr]; [left|right; exact Hr].
-  apply in_map_iff in Hm as [[k v] [E Hin]]. cbn [snd] in E. subst v. exists k.
-  apply (selection_sound (c_sel c) (pre c body) d Hd). exact Hin.
-Qed.
-
-(* the full exactness statement, as the property words it *)
-Definition selection_exact_statement : Prop :=
-  forall S body d, no_bare_relative body = true -> select S body = Ok d ->
-                   forall p, In p d <-> In p (wanted S body).
-
-Lemma selection_exact_refuted : ~ selection_exact_statement.
-Proof.
-  intros H. destruct same_statement_refuted as [S [body [d [p [Hb [Hs [Hw Hn]]]]]]].
-  apply Hn. apply (H S body d Hb Hs p). exact Hw.
-Qed.
+(* the registrations sit directly behind their import statement, in order, with its line *)
+Lemma registrations_follow_import c body :
+  fst (insert_regs (select (c_sel c) (pre c body)) (pre c body))
+  = expand (dict_names (select (c_sel c) (pre c body))) 0 (pre c body).
+Proof. apply insert_regs_expand. apply select_keys_nodup. Qed.
 
 Lemma parent_whole_component :
   (forall a b, no_char dot b = true -> parent (a ++ "." ++ b) = a)
@@ -61,13 +44,13 @@ Lemma parent_whole_component :
 Proof. split; [exact parent_dotted|exact parent_nodot]. Qed.
 
 Lemma translated_agrees :
-  (forall body, gen_get_imports body = get_imports body)
+  (forall body, gen_get_imports body = Ok (get_imports body))
   /\ (forall S mdl, gen_find_modnames S mdl = Ok (find_modnames S mdl))
-  /\ (forall S body, gen_select S body = select S body).
+  /\ (forall S body, gen_select S body = Ok (select S body)).
 Proof. split; [exact gen_get_imports_eq|split; [exact gen_find_modnames_eq|exact gen_select_eq]]. Qed.
 
 Definition nv_body : list stmt :=
-  [ImportFrom (Some "pkg") [("mod_a", None)] 0 1;
+  [ImportFrom (Some "pkg") [("mod_a", None); ("*", None); ("mod_b", Some "b")] 0 1;
    Import [("pkgx.mod_a", Some "z"); ("os", None)] 2;
    FuncDef false "f" [DOther 7]
      [Compound 1 [(4, [FuncDef true "g" [] [Other 2 6] 5])] 4;
@@ -75,28 +58,23 @@ Definition nv_body : list stmt :=
 Definition nv_cfg : cfg := Build_cfg true false None ["pkg"].
 
 Lemma c09_nonvacuous :
-  clean nv_body = true /\ no_bare_relative nv_body = true
-  /\ NoDup (map fst (wanted ["pkg"] nv_body))
-  /\ wanted ["pkg"] nv_body = [(0, "mod_a")]
+  clean nv_body = true
+  /\ wanted ["pkg"] nv_body = [(0, "mod_a"); (0, "b")]
+  /\ select ["pkg"] nv_body = [(0, ["mod_a"; "b"])]
   /\ transform nv_cfg nv_body
-     = Ok [ImportFrom (Some "pkg") [("mod_a", None)] 0 1;
-           ProfCall "mod_a" (Some 1);
-           Import [("pkgx.mod_a", Some "z"); ("os", None)] 2;
-           FuncDef false "f" [DOther 7; DName "profile"]
-             [Compound 1 [(4, [FuncDef true "g" [DName "profile"] [Other 2 6] 5])] 4;
-              ClassDef "K" 0 [FuncDef false "m" [DName "staticmethod"; DName "profile"] [Other 3 9] 8] 7] 3].
-Proof.
-  split; [reflexivity|]. split; [reflexivity|]. split; [|split; vm_compute; reflexivity].
-  vm_compute. constructor; [intros []|constructor].
-Qed.
+     = [ImportFrom (Some "pkg") [("mod_a", None); ("*", None); ("mod_b", Some "b")] 0 1;
+        ProfCall "mod_a" (Some 1); ProfCall "b" (Some 1);
+        Import [("pkgx.mod_a", Some "z"); ("os", None)] 2;
+        FuncDef false "f" [DOther 7; DName "profile"]
+          [Compound 1 [(4, [FuncDef true "g" [DName "profile"] [Other 2 6] 5])] 4;
+           ClassDef "K" 0 [FuncDef false "m" [DName "staticmethod"; DName "profile"] [Other 3 9] 8] 7] 3].
+Proof. repeat split; vm_compute; reflexivity. Qed.
 
 (* ---- C08 ------------------------------------------------------------------------------- *)
-Lemma erasure c body t' :
-  transform c body = Ok t' ->
-  erase t' = erase (pre c body) /\ (clean (pre c body) = true -> erase t' = pre c body).
-Proof.
-  intros H. split; [apply (erase_transform c body t' H)|apply (erase_transform_clean c body t' H)].
-Qed.
+Lemma erasure c body :
+  erase (transform c body) = erase (pre c body)
+  /\ (clean (pre c body) = true -> erase (transform c body) = pre c body).
+Proof. split; [apply erase_transform|apply erase_transform_clean]. Qed.
 
 Lemma pre_script c body : c_module c = None -> pre c body = body.
 Proof. unfold pre. intros ->. reflexivity. Qed.
@@ -104,88 +82,53 @@ Proof. unfold pre. intros ->. reflexivity. Qed.
 Lemma pre_module c m body : c_module c = Some m -> pre c body = absolutize m body.
 Proof. unfold pre. intros ->. reflexivity. Qed.
 
-Lemma decorator_innermost_once c body t' :
-  transform c body = Ok t' ->
-  funcs t' = (if c_full c then map deco_once (funcs (pre c body)) else funcs (pre c body))
+Lemma decorator_innermost_once c body :
+  funcs (transform c body) = (if c_full c then map deco_once (funcs (pre c body)) else funcs (pre c body))
   /\ (forall f, fh_decos (deco_once f)
                 = if has_profile (fh_decos f) then fh_decos f else fh_decos f ++ [DName profile_name])
-  /\ (c_full c = true -> clean (pre c body) = true -> forall f, In f (funcs t') -> once_innermost f = true).
+  /\ (c_full c = true -> clean (pre c body) = true ->
+      forall f, In f (funcs (transform c body)) -> once_innermost f = true).
 Proof.
-  intros H. split; [apply (funcs_transform c body t' H)|]. split; [intros f; reflexivity|].
-  intros Hf Hc. apply (whole_script_once_innermost c body t' Hf Hc H).
+  split; [apply funcs_transform|]. split; [intros f; reflexivity|].
+  intros Hf Hc. apply (whole_script_once_innermost c body Hf Hc).
 Qed.
 
-Lemma rewrite_defined c body :
-  (no_bare_relative (pre c body) = true -> exists t', transform c body = Ok t')
-  /\ (no_bare_relative (pre c body) = false -> transform c body = Err TypeError).
-Proof. split; [apply transform_total|apply transform_bare_relative]. Qed.
+Lemma located_full c body :
+  (located (pre c body) = true -> located (transform c body) = true)
+  /\ (located body = true -> located (pre c body) = true).
+Proof. split; [apply located_transform|apply located_pre]. Qed.
 
-(* "every inserted statement carries the line of the import it follows" *)
-Definition located_statement : Prop :=
-  forall c body t', transform c body = Ok t' -> located body = true -> located t' = true.
+(* a top-level `from . import x` (module None) is simply not a candidate any more *)
+Lemma bare_relative_ignored :
+  transform (Build_cfg true true None ["sibling_mod"])
+            [Other 0 1; ImportFrom None [("sibling_mod", None)] 1 2; Other 1 3]
+  = [Other 0 1; ImportFrom None [("sibling_mod", None)] 1 2; ProfCall "sibling_mod" (Some 2); Other 1 3]
+  /\ select ["sibling_mod"; "."] [ImportFrom None [("sibling_mod", None)] 1 2] = [].
+Proof. split; vm_compute; reflexivity. Qed.
 
-Definition loc_cfg : cfg := Build_cfg true true None [].
-(* def f():            line 1
-       import os       line 2   -> the inserted call gets line 1 (the def) *)
-Definition loc_body_fn : list stmt := [FuncDef false "f" [] [Import [("os", None)] 2] 1].
-(* x = 1               line 1
-   import pkg          line 2   -> the inserted call gets line 1 (module level) *)
-Definition loc_body_mod : list stmt := [Other 0 1; Import [("pkg", None)] 2].
-
-Lemma located_witnesses :
-  transform loc_cfg loc_body_fn
-  = Ok [FuncDef false "f" [DName "profile"] [Import [("os", None)] 2; ProfCall "os" (Some 1)] 1]
-  /\ transform (Build_cfg false false None ["pkg"]) loc_body_mod
-     = Ok [Other 0 1; Import [("pkg", None)] 2; ProfCall "pkg" (Some 1)]
-  /\ located loc_body_fn = true /\ located loc_body_mod = true.
+Lemma c08_examples :
+  (* in-function import: the inserted call carries line 3, not the `def` line 2 *)
+  transform (Build_cfg true true None ["json"])
+            [Import [("json", None)] 1; FuncDef false "f" [] [Import [("os", None)] 3] 2]
+  = [Import [("json", None)] 1; ProfCall "json" (Some 1);
+     FuncDef false "f" [DName "profile"] [Import [("os", None)] 3; ProfCall "os" (Some 3)] 2]
+  (* two __future__ imports, --prof-imports and `-p __future__`: untouched *)
+  /\ transform (Build_cfg true true None ["__future__"])
+               [ImportFrom (Some "__future__") [("annotations", None)] 0 1;
+                ImportFrom (Some "__future__") [("division", None)] 0 2]
+     = [ImportFrom (Some "__future__") [("annotations", None)] 0 1;
+        ImportFrom (Some "__future__") [("division", None)] 0 2]
+  (* a star import: no registration, with --prof-imports and with the module selected *)
+  /\ transform (Build_cfg true true None ["pkg"]) [ImportFrom (Some "pkg") [("*", None)] 0 1]
+     = [ImportFrom (Some "pkg") [("*", None)] 0 1].
 Proof. repeat split; vm_compute; reflexivity. Qed.
 
-Lemma located_refuted : ~ located_statement.
-Proof.
-  intros H. specialize (H loc_cfg loc_body_fn _ (proj1 located_witnesses) eq_refl). vm_compute in H. discriminate.
-Qed.
-
-(* "a valid placement of `from __future__ import` stays valid" *)
-Definition future_statement : Prop :=
-  forall c body t', transform c body = Ok t' -> future_ok body = true -> future_ok t' = true.
-
-Definition fut_body : list stmt :=
-  [ImportFrom (Some "__future__") [("annotations", None)] 0 1;
-   ImportFrom (Some "__future__") [("division", None)] 0 2].
-
-Lemma future_refuted : ~ future_statement.
-Proof.
-  intros H.
-  assert (E : transform loc_cfg fut_body
-              = Ok [ImportFrom (Some "__future__") [("annotations", None)] 0 1; ProfCall "annotations" (Some 1);
-                    ImportFrom (Some "__future__") [("division", None)] 0 2; ProfCall "division" (Some 1)])
-    by (vm_compute; reflexivity).
-  specialize (H loc_cfg fut_body _ E eq_refl). vm_compute in H. discriminate.
-Qed.
-
-(* "no registration call is made for `*`" *)
-Definition star_statement : Prop :=
-  forall c body t', transform c body = Ok t' -> star_free body = true -> star_free t' = true.
-
-Lemma star_refuted :
-  ~ star_statement
-  /\ transform loc_cfg [ImportFrom (Some "os") [("*", None)] 0 1]
-     = Ok [ImportFrom (Some "os") [("*", None)] 0 1; ProfCall "*" (Some 1)]
-  /\ transform (Build_cfg false false None ["pkg"]) [ImportFrom (Some "pkg") [("*", None)] 0 1]
-     = Ok [ImportFrom (Some "pkg") [("*", None)] 0 1; ProfCall "*" (Some 1)].
-Proof.
-  split; [|split; vm_compute; reflexivity].
-  intros H.
-  assert (E : transform loc_cfg [ImportFrom (Some "os") [("*", None)] 0 1]
-              = Ok [ImportFrom (Some "os") [("*", None)] 0 1; ProfCall "*" (Some 1)]) by (vm_compute; reflexivity).
-  specialize (H loc_cfg _ _ E eq_refl). vm_compute in H. discriminate.
-Qed.
-
 Lemma c08_nonvacuous :
-  (forall c body t', transform c body = Ok t' -> snd (toy_exec t' []) = snd (toy_exec (pre c body) []))
-  /\ clean nv_body = true
-  /\ (exists t', transform nv_cfg nv_body = Ok t' /\ erase t' = nv_body /\ lines t' = [1; 2; 3; 4; 4; 5; 6; 7; 8; 9]).
+  (forall c body, snd (toy_exec (transform c body) []) = snd (toy_exec (pre c body) []))
+  /\ clean nv_body = true /\ located nv_body = true /\ future_ok nv_body = true
+  /\ star_grammar nv_body = true /\ star_free nv_body = true
+  /\ erase (transform nv_cfg nv_body) = nv_body
+  /\ lines (transform nv_cfg nv_body) = [1; 2; 3; 4; 4; 5; 6; 7; 8; 9].
 Proof.
-  split; [exact behaviour_nonvacuous|]. split; [reflexivity|].
-  destruct c09_nonvacuous as [_ [_ [_ [_ E]]]]. eexists. split; [exact E|]. split; vm_compute; reflexivity.
+  split; [exact behaviour_nonvacuous|]. repeat split; vm_compute; reflexivity.
 Qed.
